@@ -91,6 +91,18 @@ theorem getEntries_last {ff : Nat} {F : List Entry} (hne : F ≠ []) (h : IdxOK 
     simp [this]
   rw [hd]
 
+theorem ackNext_snoc (l : List Out) (d n t : Nat) (r : Bool) :
+    ackNext (l ++ [Out.send d (.nextNodeIdx n r true t)]) = some n := by
+  induction l with
+  | nil => simp [ackNext]
+  | cons a t ih => simp [ackNext, ih]
+
+theorem ackNext_append_some (o1 : List Out) {o2 : List Out} {n : Nat} (h : ackNext o2 = some n) :
+    ackNext (o1 ++ o2) = some n := by
+  induction o1 with
+  | nil => simpa using h
+  | cons a t ih => simp [ackNext, ih]
+
 theorem matchedCount_nil (es : List Entry) : matchedCount [] es = 0 := by cases es <;> rfl
 
 theorem followerRunA_cons (cfg : Conf) (src : Nat) (s : Node) (am : AppendMsg) (rest : List AppendMsg) :
@@ -115,7 +127,9 @@ theorem followerRunA_cons (cfg : Conf) (src : Nat) (s : Node) (am : AppendMsg) (
 theorem followerAppend_extend (cfg : Conf) (s : Node) (src : Nat) {ff : Nat} (hne : s.log ≠ []) (h : IdxOK ff s.log)
     {pe : Entry} (hpe : s.log.getLast? = some pe) (es : List Entry) :
     ∃ s' o, followerAppend cfg s src { prev := some (ff + s.log.length - 1, pe.term), entries := es } = (s', .ok o) ∧
-      s'.log = s.log ++ es ∧ s'.recvBuf = s.recvBuf := by
+      s'.log = s.log ++ es ∧ s'.recvBuf = s.recvBuf ∧ ackNext o = some (ff + s.log.length + es.length) := by
+  have hlen1 : 1 ≤ s.log.length := List.length_pos_iff.mpr hne
+  have hnum : ff + s.log.length - 1 + es.length + 1 = ff + s.log.length + es.length := by omega
   unfold followerAppend
   simp only [getEntries_last hne h hpe, Option.map_some, Option.getD_some, ne_eq, not_true_eq_false, if_false]
   simp only [matchedCount_nil, List.drop_zero, List.drop_nil, not_true_eq_false, false_and, if_false]
@@ -124,11 +138,13 @@ theorem followerAppend_extend (cfg : Conf) (s : Node) (src : Nat) {ff : Nat} (hn
     obtain ⟨⟨s3, o2⟩, ha⟩ := applyChanges_ok false es (s := { s with log := s.log ++ es }) (by simp [hne])
     simp only [ha]
     have hs := applyChanges_spec es ha
-    refine ⟨_, _, rfl, by simpa using hs.2.1, ?_⟩
-    have := applyChanges_recvBuf es ha
-    simpa using this
+    refine ⟨_, _, rfl, by simpa using hs.2.1, ?_, ?_⟩
+    · have := applyChanges_recvBuf es ha
+      simpa using this
+    · rw [ackNext_snoc, hnum]
   · simp only [hd, Bool.false_eq_true, if_false]
-    exact ⟨_, _, rfl, rfl, rfl⟩
+    refine ⟨_, _, rfl, rfl, rfl, ?_⟩
+    rw [ackNext_snoc, hnum]
 
 /-! ## a chunk burst -/
 
@@ -233,7 +249,7 @@ theorem followerRunA_chunked (cfg : Conf) (src : Nat) (s : Node) {ff : Nat} (hne
     {pe : Entry} (hpe : s.log.getLast? = some pe) (B : Nat) (hB : 1 ≤ B) (e : Entry) (hE : B < e.plen) :
     ∃ s' o, followerRunA cfg src s
         ((chunksOf B (pickleEntry e)).map fun c => { prev := some (ff + s.log.length - 1, pe.term), chunk := some c }) = .ok (s', o) ∧
-      s'.log = s.log ++ [e] ∧ s'.recvBuf = none := by
+      s'.log = s.log ++ [e] ∧ s'.recvBuf = none ∧ ackNext o = some (ff + s.log.length + 1) := by
   have hlen : (pickleEntry e).length = e.plen := by simp [pickleEntry]
   obtain ⟨d0, mids, dn, hshape, hcat⟩ := chunksOf_shape B (pickleEntry e) hB (by omega)
   obtain ⟨x, hx⟩ := lastIdx_some_of_ne hne
@@ -256,17 +272,18 @@ theorem followerRunA_chunked (cfg : Conf) (src : Nat) (s : Node) {ff : Nat} (hne
   have hbytes : d0 ++ mids.flatten ++ dn = pickleEntry e := hcat
   have hfin : ∃ s' o, followerAppend cfg { s with recvBuf := some (d0 ++ mids.flatten) } src
         { prev := some (ff + s.log.length - 1, pe.term), chunk := some (Label.finish, dn) } = (s', .ok o) ∧
-        s'.log = s.log ++ [e] ∧ s'.recvBuf = none := by
+        s'.log = s.log ++ [e] ∧ s'.recvBuf = none ∧ ackNext o = some (ff + s.log.length + 1) := by
     have hext := followerAppend_extend cfg { s with recvBuf := none } src (ff := ff) hne h hpe [e]
-    obtain ⟨s', o, hfa, hlog, hbuf⟩ := hext
-    refine ⟨s', o, ?_, hlog, hbuf⟩
+    obtain ⟨s', o, hfa, hlog, hbuf, hack⟩ := hext
+    refine ⟨s', o, ?_, hlog, hbuf, by simpa using hack⟩
     rw [← hfa]
     unfold followerAppend
     simp only [recvChunk, hbytes, unpickle_pickle e (by omega)]
-  obtain ⟨s', o, hfa, hlog, hbuf⟩ := hfin
+  obtain ⟨s', o, hfa, hlog, hbuf, hack⟩ := hfin
   rw [hfa]
   simp only [followerRunA]
-  exact ⟨s', _, rfl, hlog, hbuf⟩
+  refine ⟨s', _, rfl, hlog, hbuf, ?_⟩
+  exact ackNext_append_some _ (ackNext_append_some _ (by simpa using hack))
 
 /-! ## all batches of one send run -/
 
@@ -334,10 +351,11 @@ theorem followerRunA_batches (cfg : Conf) (src : Nat) {first : Nat} {log : List 
     ∀ (bs : List Batch) (p : Nat) (s : Node) (tail : List Entry), 1 ≤ p → p ≤ log.length → s.log = log.take p →
       PrevOK log first p bs → ChunkOK B bs → log.drop p = bs.flatMap Batch.entries ++ tail →
       ∃ s' o, followerRunA cfg src s ((bs.flatMap (render B term commit)).filterMap toAppendMsg) = .ok (s', o) ∧
-        s'.log = log.take (p + (bs.flatMap Batch.entries).length) := by
+        s'.log = log.take (p + (bs.flatMap Batch.entries).length) ∧ (bs = [] → o = []) ∧
+        (bs ≠ [] → ackNext o = some (first + p + (bs.flatMap Batch.entries).length)) := by
   intro bs
   induction bs with
-  | nil => intro p s tail _ _ hs _ _ _; exact ⟨s, [], by simp [followerRunA], by simpa using hs⟩
+  | nil => intro p s tail _ _ hs _ _ _; exact ⟨s, [], by simp [followerRunA], by simpa using hs, fun _ => rfl, fun h => absurd rfl h⟩
   | cons b bs ih =>
     intro p s tail hp1 hp2 hs hprev hck hdrop
     obtain ⟨⟨pe, hpe, hbprev⟩, hprev'⟩ := hprev
@@ -356,15 +374,15 @@ theorem followerRunA_batches (cfg : Conf) (src : Nat) {first : Nat} {log : List 
     rw [followerRunA_append]
     -- the first batch
     have hstep : ∃ s1 o1, followerRunA cfg src s ((render B term commit b).filterMap toAppendMsg) = .ok (s1, o1) ∧
-        s1.log = s.log ++ b.entries := by
+        s1.log = s.log ++ b.entries ∧ ackNext o1 = some (first + p + b.entries.length) := by
       rw [render_appendMsgs]
       cases b with
       | snapshot a => simp [Batch.prev] at hbprev
       | regular prev es =>
         simp only [Batch.prev] at hbprev
-        obtain ⟨s1, o1, hfa, hlog, _⟩ := followerAppend_extend cfg s src hsne hsidx hslast es
-        rw [hslen] at hfa
-        refine ⟨s1, o1 ++ [], ?_, hlog⟩
+        obtain ⟨s1, o1, hfa, hlog, _, hack⟩ := followerAppend_extend cfg s src hsne hsidx hslast es
+        rw [hslen] at hfa hack
+        refine ⟨s1, o1 ++ [], ?_, hlog, by simpa [Batch.entries] using hack⟩
         simp only [hbprev, followerRunA_cons, hfa, followerRunA]
       | chunked prev e =>
         simp only [Batch.prev] at hbprev
@@ -373,10 +391,10 @@ theorem followerRunA_batches (cfg : Conf) (src : Nat) {first : Nat} {log : List 
           have : e ∈ log.drop p := by rw [hdrop]; simp [Batch.entries]
           exact List.mem_of_mem_drop this
         have hE : B < e.plen := by have := hovh e hmem; unfold Entry.plen; omega
-        obtain ⟨s1, o1, hrun, hlog, _⟩ := followerRunA_chunked cfg src s hsne hsidx hslast B hB e hE
-        rw [hslen] at hrun
-        exact ⟨s1, o1, by rw [hbprev]; exact hrun, hlog⟩
-    obtain ⟨s1, o1, hrun1, hlog1⟩ := hstep
+        obtain ⟨s1, o1, hrun, hlog, _, hack⟩ := followerRunA_chunked cfg src s hsne hsidx hslast B hB e hE
+        rw [hslen] at hrun hack
+        exact ⟨s1, o1, by rw [hbprev]; exact hrun, hlog, by simpa [Batch.entries] using hack⟩
+    obtain ⟨s1, o1, hrun1, hlog1, hack1⟩ := hstep
     rw [hrun1]
     simp only []
     have hlen_b : p + b.entries.length ≤ log.length := by
@@ -389,10 +407,16 @@ theorem followerRunA_batches (cfg : Conf) (src : Nat) {first : Nat} {log : List 
     have hdrop' : log.drop (p + b.entries.length) = bs.flatMap Batch.entries ++ tail := by
       rw [← List.drop_drop, hdrop]; simp
     have hck' : ChunkOK B bs := fun b' hb' => hck b' (List.mem_cons_of_mem _ hb')
-    obtain ⟨s', o', hrun', hlog'⟩ := ih (p + b.entries.length) s1 tail (by omega) hlen_b hs1 hprev' hck' hdrop'
+    obtain ⟨s', o', hrun', hlog', hnil', hack'⟩ := ih (p + b.entries.length) s1 tail (by omega) hlen_b hs1 hprev' hck' hdrop'
     rw [hrun']
-    refine ⟨s', o1 ++ o', rfl, ?_⟩
-    rw [hlog']
-    simp [Nat.add_assoc]
+    refine ⟨s', o1 ++ o', rfl, ?_, ⟨fun hc => absurd hc (List.cons_ne_nil _ _), fun _ => ?_⟩⟩
+    · rw [hlog']
+      simp [Nat.add_assoc]
+    · by_cases hbs : bs = []
+      · rw [hnil' hbs, hbs]
+        simpa using hack1
+      · have := ackNext_append_some o1 (hack' hbs)
+        rw [this]
+        simp [List.length_append, Nat.add_assoc]
 
 end PSO.NodeSend
